@@ -246,7 +246,7 @@ Proof.
   apply WF_mod_dir; [now apply WF_fold_unlink|]. intros; apply dir_ok_clear.
 Qed.
 
-Lemma WF_tick c st : WF c st -> WF c (tick st).
+Lemma WF_tick c k st : WF c st -> WF c (tick k st).
 Proof. intros H y d Hy. apply (H y d Hy). Qed.
 
 (* Attaching to directory [x]: what has to be known about it right now. *)
